@@ -544,8 +544,8 @@ static int vh_make_file (MEMF *m, int format, int ch, int rate, long N, int kind
 
 /* channel counts to try for a format: those of the candidate list the library accepts */
 static int vh_channels_for (int format, int *out, int max, int thorough)
-{	static const int cq [] = { 1, 2, 3, 5 }, ct [] = { 1, 2, 3, 5, 8, 17, 256, 1024 } ;
-	const int *c = thorough ? ct : cq ; int n = thorough ? 8 : 4, i, k = 0 ;
+{	static const int cq [] = { 1, 2, 3, 5, 7 }, ct [] = { 1, 2, 3, 5, 7, 8, 11, 17, 256, 1024 } ;	/* 7 and 11 divide none of the staging sizes 2040 / 2048 / 4096 / 8192 */
+	const int *c = thorough ? ct : cq ; int n = thorough ? 10 : 5, i, k = 0 ;
 	for (i = 0 ; i < n && k < max ; i++) if (vh_accepts (format, c [i], 8000)) out [k++] = c [i] ;
 	return k ; }
 
